@@ -156,6 +156,13 @@ class ModelImageMixin:
         """
         if isinstance(data, NDData):
             residual = deepcopy(data)
+            if residual.data.dtype.kind != 'f':
+                # an integer data array cannot hold the residuals
+                residual = data.__class__(
+                    data.data.astype(float),
+                    uncertainty=deepcopy(data.uncertainty),
+                    mask=deepcopy(data.mask), wcs=deepcopy(data.wcs),
+                    meta=deepcopy(data.meta), unit=data.unit)
             data_arr = data.data
             if data.unit is not None:
                 data_arr <<= data.unit
